@@ -181,6 +181,11 @@ class P:
         for proto in ("ipfix", "sflow"):
             line = self.case(proto, gens.get(proto), rng, repeat_to=1150, force_mirror=True)
             out.append(line)
+        # the OTHER pipelines' outgoing queues are full (their producers have stalled): this pipeline publishes as if they were not there
+        for proto in ("ipfix", "nf9", "nf5", "sflow"):
+            line = self.case(proto, gens.get(proto), rng)
+            self.cj[line]["fill_others"] = True
+            out.append(line)
         # workers RETIRED before the datagrams arrive (their quit channel is closed while they wait for work, as the dynamic
         # scaling does after a burst): the remaining workers process everything; a retired worker must not take a datagram with it
         for proto in ("ipfix", "nf9", "nf5", "sflow"):
